@@ -105,6 +105,8 @@ var keyCmds = []cmdShape{
 	{"pexpire", "1", 1, 1}, {"pexpireat", "1", 1, 1}, {"persist", "1", 0, 0}, {"psetex", "1", 2, 2}, {"setex", "1", 2, 2},
 	{"del", "all", 0, 0}, {"unlink", "all", 0, 0}, {"mset", "odd", 0, 0}, {"rpoplpush", "12", 0, 0}, {"smove", "12", 1, 1},
 	{"lmove", "12", 2, 2}, {"pfadd", "1", 1, 3}, {"xadd", "1", 3, 5}, {"xdel", "1", 1, 2}, {"restore", "1", 2, 3},
+	// commands whose first argument is not a key: an operator, a subcommand, a script with a key count
+	{"bitop", "bitop", 0, 0}, {"xgroup", "xgroup", 0, 0}, {"eval", "eval", 0, 2},
 }
 
 // names no Redis version or module defines (unknown to every key table)
@@ -278,6 +280,28 @@ func (g *gen) businessCmd() (string, [][]byte) {
 		n := 1 + g.c.Choose("nkeys", 3)
 		for i := 0; i < n; i++ {
 			args = append(args, g.key(), g.arg(1<<20))
+		}
+	case "bitop": // BITOP <op> <dest> <src> [<src> ...]
+		args = append(args, []byte([]string{"AND", "or", "XOR"}[g.c.Choose("bitopop", 3)]), g.key())
+		for i := 1 + g.c.Choose("nkeys", 3); i > 0; i-- {
+			args = append(args, g.key())
+		}
+	case "xgroup": // XGROUP <subcommand> <key> <group> ...
+		switch g.c.Choose("xgroupsub", 4) {
+		case 0:
+			args = append(args, []byte("CREATE"), g.key(), []byte("grp"), []byte("$"), []byte("MKSTREAM"))
+		case 1:
+			args = append(args, []byte("setid"), g.key(), []byte("grp"), []byte("0-0"))
+		case 2:
+			args = append(args, []byte("DESTROY"), g.key(), []byte("grp"))
+		default:
+			args = append(args, []byte("createconsumer"), g.key(), []byte("grp"), []byte("c1"))
+		}
+	case "eval": // EVAL <script> <numkeys> <key> ... <arg> ...
+		n := 1 + g.c.Choose("nkeys", 3)
+		args = append(args, []byte("return redis.call('set', KEYS[1], 'x')"), []byte(strconv.Itoa(n)))
+		for i := 0; i < n; i++ {
+			args = append(args, g.key())
 		}
 	}
 	n := sh.minArgs
@@ -559,6 +583,27 @@ func refKeyIdx(name string, args [][]byte) ([]int, bool) {
 				idx = append(idx, i)
 			}
 			return idx, len(idx) > 0
+		case "bitop": // the operator is no key
+			var idx []int
+			for i := 1; i < len(args); i++ {
+				idx = append(idx, i)
+			}
+			return idx, len(idx) > 0
+		case "xgroup": // the subcommand is no key
+			if len(args) >= 2 {
+				return []int{1}, true
+			}
+		case "eval": // script, key count, then that many keys
+			if len(args) >= 2 {
+				n, err := strconv.Atoi(string(args[1]))
+				if err == nil && n > 0 && 2+n <= len(args) {
+					idx := make([]int, n)
+					for i := range idx {
+						idx[i] = 2 + i
+					}
+					return idx, true
+				}
+			}
 		}
 		return nil, false
 	}
